@@ -10,7 +10,7 @@ From Coq Require Import List Bool Arith NArith Lia Relations Permutation.
 Import ListNotations.
 From BB Require Import BN Brute SpaceFacts TrapFacts PercolateFacts AttractorFacts Diagram Invariants Checks Filter
   Strict PetriNet Control Meta FilterFacts PetriNetFacts TrappistFacts DiagramStruct DiagramSem1 DiagramCache
-  DiagramDepth DiagramComplete Termination ControlFacts MetaFacts Candidates StrictFacts MinExpandFacts CandidatesFacts SymbolicTest SymbolicTestFacts Signed ReductionFacts ControlFacts2 Main.
+  DiagramDepth DiagramComplete Termination ControlFacts MetaFacts Candidates StrictFacts MinExpandFacts CandidatesFacts SymbolicTest SymbolicTestFacts Signed ReductionFacts ControlFacts2 Main Blocks BlocksFacts ObsFacts OwnerFacts CandidatesTerm.
 
 Theorem C14_step_CacheOK : forall (fuel : nat) (N : net) (cfg : config) (d : sd) (o : op), SWF N d -> NoStubEdges d -> EdgeStrict d -> CacheOK d -> CacheOK (fst (step fuel N cfg d o)).
 Proof. exact step_CacheOK. Qed.
@@ -37,6 +37,10 @@ Proof. exact reclaim_CacheOK. Qed.
 Theorem C14_not_vacuous : ~ CacheOK stale_sd.
 Proof. exact stale_not_CacheOK. Qed.
 
+(* source shortcuts and clean-block bookkeeping of expand_block (after fix 3581ec3) *)
+Theorem C14_block_expansion_CacheOK : forall (fuel : nat) (N : net) (cfg : config) (d : sd) (maa opt : bool) (sz : option nat) (tape : list bool), SWF N d -> NoStubEdges d -> CacheOK d -> CacheOK (fst (expand_block fuel N cfg d maa opt sz tape)).
+Proof. exact expand_block_CacheOK. Qed.
+
 Print Assumptions C14_step_CacheOK.
 Print Assumptions C14_run_CacheOK.
 Print Assumptions C14_expand_one_CacheOK.
@@ -45,3 +49,4 @@ Print Assumptions C14_q_seeds_CacheOK.
 Print Assumptions C14_q_sets_CacheOK.
 Print Assumptions C14_reclaim_CacheOK.
 Print Assumptions C14_not_vacuous.
+Print Assumptions C14_block_expansion_CacheOK.
